@@ -53,13 +53,13 @@ Proof. unfold absP, empty_pool. induction n; simpl; congruence. Qed.
 
 (* ---------- one step on one object, any plan ---------- *)
 Definition StepOK (R : fv -> Prop) (f : fv -> fv * outcome) : Prop :=
-  forall st, R st -> R (fst (f st)) /\ snd (f st) <> OutOfStorage /\ snd (f st) <> Skipped.
+  forall st, R st -> R (fst (f st)) /\ snd (f st) <> OutOfStorage.
 
 Lemma on_obj_ok R P i f P' o : PAll R P -> StepOK R f -> on_obj P i f = (P', o) ->
   PAll R P' /\ o <> OutOfStorage /\ length P' = length P.
 Proof.
   unfold on_obj. intros HP Hf. destruct (pget P i) as [st|] eqn:E; intros [= <- <-].
-  - destruct (Hf st (PAll_pget _ _ _ _ HP E)) as (A & B & _). rewrite pset_length. repeat split; auto.
+  - destruct (Hf st (PAll_pget _ _ _ _ HP E)) as (A & B). rewrite pset_length. repeat split; auto.
     apply PAll_pset; auto.
   - repeat split; auto. discriminate.
 Qed.
@@ -84,6 +84,36 @@ Section AnyPlan.
   Proof.
     intros st HI. destruct (append p (Filled v) st) as [st' o] eqn:E.
     apply (append_good Q) in E; auto. destruct E as ((A & _ & B & C) & _). simpl. auto.
+  Qed.
+
+  Lemma append_okS p s : Q s -> StepOK (GInv Q) (append p s).
+  Proof.
+    intros Hs st HI. destruct (append p s st) as [st' o] eqn:E.
+    apply (append_good Q) in E; auto. destruct E as ((A & _ & B & C) & _). simpl. auto.
+  Qed.
+
+  (* an argument that names a live element of the same vector *)
+  Lemma alias_ok (f : slot -> fv -> fv * outcome) k : (forall s, Q s -> StepOK (GInv Q) (f s)) ->
+    StepOK (GInv Q) (fun st => match live_elem st k with Some s => f s st | None => (st, Skipped) end).
+  Proof.
+    intros Hf st HI. destruct (live_elem st k) as [s|] eqn:E.
+    - apply Hf; auto. eapply live_elem_Q; eauto.
+    - simpl. split; auto. discriminate.
+  Qed.
+
+  Lemma insert_self_range_ok p pos a b :
+    StepOK (GInv Q) (fun st => if self_range_valid st a b then insert_self_range p pos a b st else (st, Skipped)).
+  Proof.
+    intros st HI. destruct (self_range_valid st a b) eqn:V.
+    - destruct (insert_self_range p pos a b st) as [st' o] eqn:E.
+      apply (insert_self_range_good Q) in E; auto. destruct E as ((A & _ & B & C) & _). simpl. auto.
+    - simpl. split; auto. discriminate.
+  Qed.
+
+  Lemma push_back_self_range_ok p a b :
+    StepOK (GInv Q) (fun st => if self_range_valid st a b then push_back_self_range p a b st else (st, Skipped)).
+  Proof.
+    intros st HI. pose proof (insert_self_range_ok p (size st) a b st HI) as H. exact H.
   Qed.
 
   Lemma insert_range_ok p key xs : StepOK (GInv Q) (insert_range p key (map Filled xs)).
@@ -117,9 +147,10 @@ Section AnyPlan.
   Qed.
 
   (* positional emplace and erase keep GInv Q only when Q tolerates moved-from elements, or when no throw occurs *)
-  Definition positional (o : op) : bool := match o with OEmplace _ _ _ | OErase _ _ => true | _ => false end.
+  Definition positional (o : op) : bool :=
+    match o with OEmplace _ _ _ | OErase _ _ | OEmplaceAt _ _ _ => true | _ => false end.
   Variable pos_ok : plan -> Prop.
-  Hypothesis Hemplace : forall p key v, pos_ok p -> StepOK (GInv Q) (emplace p key (Filled v)).
+  Hypothesis Hemplace : forall p key s, Q s -> pos_ok p -> StepOK (GInv Q) (emplace p key s).
   Hypothesis Herase : forall p key, pos_ok p -> StepOK (GInv Q) (erase p key).
 
   Theorem pstep_G p o P P' r : PAll (GInv Q) P -> (positional o = true -> pos_ok p) -> pstep p o P = (P', r) ->
@@ -146,7 +177,7 @@ Section AnyPlan.
       apply PAll_pset; auto. apply PAll_pset; auto.
     - (* OAssign *) destruct (pget P j) as [src|] eqn:Ej; [|inversion H; subst; repeat split; auto; discriminate].
       eapply on_obj_ok in H; eauto. apply copy_assign_ok. eapply PAll_pget; eauto.
-    - (* OMoveAssign *) destruct (i =? j); [inversion H; subst; repeat split; auto; discriminate|].
+    - (* OMoveAssign *)
       destruct (pget P i) as [dst|] eqn:Ei; [|inversion H; subst; repeat split; auto; discriminate].
       destruct (pget P j) as [src|] eqn:Ej; [|inversion H; subst; repeat split; auto; discriminate].
       destruct (move_ctor_good Q src) as (A & B & _); [eapply PAll_pget; eauto|].
@@ -167,13 +198,19 @@ Section AnyPlan.
     - (* OErase *) eapply on_obj_ok in H; eauto.
     - (* ODestroy *) destruct (i <? length P); inversion H; subst; rewrite ?pset_length; repeat split; auto; try discriminate.
       apply PAll_pset; simpl; auto.
+    - (* OEmplaceAt *) eapply on_obj_ok in H; eauto. apply alias_ok. intros s Hs. apply Hemplace; auto.
+    - (* OEmplaceBackAt *) eapply on_obj_ok in H; eauto. apply alias_ok. intros s Hs. now apply append_okS.
+    - (* OInsertAt *) eapply on_obj_ok in H; eauto. apply alias_ok. intros s Hs. now apply append_okS.
+    - (* OPushBackAt *) eapply on_obj_ok in H; eauto. apply alias_ok. intros s Hs. now apply append_okS.
+    - (* OInsertSelfRange *) eapply on_obj_ok in H; eauto. apply insert_self_range_ok.
+    - (* OPushBackSelfRange *) eapply on_obj_ok in H; eauto. apply push_back_self_range_ok.
   Qed.
 End AnyPlan.
 
 (* ---------- C06: the weak invariant survives every operation under every fault plan ---------- *)
-Lemma emplace_okW p key v : StepOK WInv (emplace p key (Filled v)).
+Lemma emplace_okW p key s : nonfresh s -> StepOK WInv (emplace p key s).
 Proof.
-  intros st HI. destruct (emplace p key (Filled v) st) as [st' o] eqn:E.
+  intros Hs st HI. destruct (emplace p key s st) as [st' o] eqn:E.
   apply emplace_good in E; simpl; auto. destruct E as ((A & _ & B & C) & _). simpl. auto.
 Qed.
 
@@ -187,7 +224,7 @@ Theorem pstep_WInv p o P P' r : PAll WInv P -> pstep p o P = (P', r) ->
   PAll WInv P' /\ r <> OutOfStorage /\ length P' = length P.
 Proof.
   intros HP H.
-  apply (pstep_G nonfresh (fun _ => I) (fun _ => True) (fun p key v _ => emplace_okW p key v) (fun p key _ => erase_okW p key) p o P P' r); auto.
+  apply (pstep_G nonfresh (fun _ => I) (fun _ => True) (fun p key s Hs _ => emplace_okW p key s Hs) (fun p key _ => erase_okW p key) p o P P' r); auto.
 Qed.
 
 (* ---------- a plan that is not reached changes nothing ---------- *)
@@ -226,6 +263,18 @@ Proof.
   - apply (on_obj_unfault (fun q => insert_list q pos (map Filled xs)) p); auto. intros; eapply insert_range_unfault; eauto.
   - apply (on_obj_unfault (fun q => push_back_range q (map Filled xs)) p); auto. intros; eapply push_back_range_unfault; eauto.
   - apply (on_obj_unfault (fun q => erase q pos) p); auto. intros; eapply erase_unfault; eauto.
+  - apply (on_obj_unfault (fun q st => match live_elem st k with Some s => emplace q pos s st | None => (st, Skipped) end) p); auto.
+    intros st st' o. destruct (live_elem st k); auto. apply emplace_unfault.
+  - apply (on_obj_unfault (fun q st => match live_elem st k with Some s => emplace_back q s st | None => (st, Skipped) end) p); auto.
+    intros st st' o. destruct (live_elem st k); auto. apply append_unfault.
+  - apply (on_obj_unfault (fun q st => match live_elem st k with Some s => insert_copy q s st | None => (st, Skipped) end) p); auto.
+    intros st st' o. destruct (live_elem st k); auto. apply append_unfault.
+  - apply (on_obj_unfault (fun q st => match live_elem st k with Some s => push_back q s st | None => (st, Skipped) end) p); auto.
+    intros st st' o. destruct (live_elem st k); auto. apply append_unfault.
+  - apply (on_obj_unfault (fun q st => if self_range_valid st a b then insert_self_range q pos a b st else (st, Skipped)) p); auto.
+    intros st st' o. destruct (self_range_valid st a b); auto. apply insert_self_range_unfault.
+  - apply (on_obj_unfault (fun q st => if self_range_valid st a b then push_back_self_range q a b st else (st, Skipped)) p); auto.
+    intros st st' o. destruct (self_range_valid st a b); auto. apply insert_self_range_unfault.
 Qed.
 
 (* ---------- C07: without faults, pstep refines sstep, and the strong invariant is kept ---------- *)
@@ -254,26 +303,26 @@ Proof. exact I. Qed.
 Lemma Inv_of_WInv st : WInv st -> Forall filled (abs st) -> Inv st.
 Proof. intros (A & B & _) C. repeat split; auto. Qed.
 
-Lemma append_I v : Istep (append None (Filled v)) (fun a => a_try a (bl_append (fst a) (snd a) (Filled v))).
+Lemma append_I s : filled s -> Istep (append None s) (fun a => a_try a (bl_append (fst a) (snd a) s)).
 Proof.
-  intros st HI. destruct (append None (Filled v) st) as [st' o] eqn:E. simpl.
-  pose proof (append_good filled _ _ _ _ _ E I HI) as ((A & _) & _).
+  intros Hs st HI. destruct (append None s st) as [st' o] eqn:E. simpl.
+  pose proof (append_good filled _ _ _ _ _ E Hs HI) as ((A & _) & _).
   apply (append_refines filled) in E; auto. split; auto.
-  unfold absobj at 1. simpl. destruct (bl_append (cap st) (abs st) (Filled v)).
+  unfold absobj at 1. simpl. destruct (bl_append (cap st) (abs st) s).
   - destruct E as (-> & <- & E3). unfold absobj. now rewrite E3.
   - destruct E as (-> & ->). reflexivity.
 Qed.
 
-Lemma emplace_I key v : Istep (emplace None key (Filled v)) (fun a => a_try a (bl_emplace (fst a) (snd a) key (Filled v))).
+Lemma emplace_I key s : filled s -> Istep (emplace None key s) (fun a => a_try a (bl_emplace (fst a) (snd a) key s)).
 Proof.
-  intros st HI. destruct (emplace None key (Filled v) st) as [st' o] eqn:E. simpl.
-  pose proof (emplace_good _ _ _ _ _ _ E I (Inv_WInv _ HI)) as ((A & _) & _).
+  intros Hs st HI. destruct (emplace None key s st) as [st' o] eqn:E. simpl.
+  pose proof (emplace_good _ _ _ _ _ _ E (filled_nonfresh _ Hs) (Inv_WInv _ HI)) as ((A & _) & _).
   apply (emplace_refines filled) in E; auto.
   unfold absobj at 1. simpl. unfold bl_emplace in *.
   destruct ((length (abs st) <? cap st) && (key <=? length (abs st))).
   - destruct E as (-> & E2 & E3). split.
     + apply Inv_of_WInv; auto. rewrite E2. destruct HI as (_ & _ & HF).
-      apply Forall_app. split; [now apply Forall_firstn|]. constructor; [exact I|now apply Forall_skipn].
+      apply Forall_app. split; [now apply Forall_firstn|]. constructor; [exact Hs|now apply Forall_skipn].
     + unfold absobj. now rewrite E2, E3.
   - destruct E as (-> & ->). auto.
 Qed.
@@ -323,6 +372,58 @@ Proof.
   destruct E as (-> & E2 & E3). unfold absobj. now rewrite E2, E3.
 Qed.
 
+(* aliasing arguments *)
+Lemma alias_I (f : slot -> fv -> fv * outcome) (g : slot -> aobj -> aobj * outcome) k :
+  (forall s, filled s -> Istep (f s) (g s)) ->
+  Istep (fun st => match live_elem st k with Some s => f s st | None => (st, Skipped) end)
+        (fun a => match nth_error (snd a) k with Some s => g s a | None => (a, Skipped) end).
+Proof.
+  intros Hf st HI. rewrite (live_elem_abs filled) by auto.
+  change (snd (absobj st)) with (abs st).
+  destruct (nth_error (abs st) k) as [s|] eqn:E.
+  - apply Hf; auto. destruct HI as (_ & _ & H3). eapply Forall_nth_error; eauto.
+  - simpl. auto.
+Qed.
+
+(* a range of the vector itself is read correctly unless the target position lies strictly inside it *)
+Definition benign (o : op) : Prop :=
+  match o with OInsertSelfRange _ pos a b => pos <= a \/ b <= pos | _ => True end.
+
+Lemma self_valid_abs st a b : Inv st -> self_range_valid st a b = (a <=? b) && (b <=? length (abs st)).
+Proof. intros HI. unfold self_range_valid. now rewrite (abs_length filled). Qed.
+
+Lemma slice_filled st a b : Inv st -> Forall filled (firstn (b - a) (skipn a (abs st))).
+Proof. intros (_ & _ & H). now apply Forall_firstn, Forall_skipn. Qed.
+
+Lemma insert_self_range_I pos a b : pos <= a \/ b <= pos ->
+  Istep (fun st => if self_range_valid st a b then insert_self_range None pos a b st else (st, Skipped))
+        (fun x => if (a <=? b) && (b <=? length (snd x))
+                  then a_range x (bl_overwrite (fst x) (snd x) pos (firstn (b - a) (skipn a (snd x)))) else (x, Skipped)).
+Proof.
+  intros Hov st HI. change (snd (absobj st)) with (abs st). change (fst (absobj st)) with (cap st).
+  rewrite <- (self_valid_abs st a b HI). destruct (self_range_valid st a b) eqn:V; [|simpl; auto].
+  destruct (insert_self_range None pos a b st) as [st' o] eqn:E. simpl.
+  pose proof (insert_self_range_good filled _ _ _ _ _ _ _ E V HI) as ((A & _) & _).
+  apply (insert_self_range_refines filled) in E; auto. split; auto.
+  destruct (bl_overwrite (cap st) (abs st) pos (firstn (b - a) (skipn a (abs st)))) as [[l fits]|].
+  - destruct E as (-> & <- & E3). unfold absobj. simpl. now rewrite E3.
+  - destruct E as (-> & ->). reflexivity.
+Qed.
+
+Lemma push_back_self_range_I a b :
+  Istep (fun st => if self_range_valid st a b then push_back_self_range None a b st else (st, Skipped))
+        (fun x => if (a <=? b) && (b <=? length (snd x))
+                  then a_range x (Some (bl_append_range (fst x) (snd x) (firstn (b - a) (skipn a (snd x))))) else (x, Skipped)).
+Proof.
+  intros st HI. change (snd (absobj st)) with (abs st). change (fst (absobj st)) with (cap st).
+  rewrite <- (self_valid_abs st a b HI). destruct (self_range_valid st a b) eqn:V; [|simpl; auto].
+  destruct (push_back_self_range None a b st) as [st' o] eqn:E. simpl.
+  pose proof (insert_self_range_good filled _ _ _ _ _ _ _ E V HI) as ((A & _) & _).
+  apply (push_back_self_range_refines filled) in E; auto. split; auto.
+  unfold bl_append_range in *. simpl in E. simpl.
+  destruct E as (-> & E2 & E3). unfold absobj. now rewrite E2, E3.
+Qed.
+
 Lemma at_I k : Istep (fun st => (st, access_outcome (at_ st k))) (fun a => (a, match bl_at (snd a) k with Some _ => Done | None => Raised end)).
 Proof.
   intros st HI. simpl. split; auto. pose proof (at_refines filled st k HI) as H.
@@ -345,10 +446,10 @@ Proof.
   unfold absobj. rewrite E2, E3. now rewrite map_length.
 Qed.
 
-Theorem pstep_refines o P P' r : PAll Inv P -> pstep None o P = (P', r) ->
+Theorem pstep_refines o P P' r : PAll Inv P -> benign o -> pstep None o P = (P', r) ->
   PAll Inv P' /\ sstep o (absP P) = (absP P', r).
 Proof.
-  intros HP H. destruct o; simpl in H; simpl sstep.
+  intros HP Hben H. destruct o; simpl in H, Hben; simpl sstep.
   - (* ONew *) split.
     + eapply (construct_ok Inv) in H; eauto; simpl; try discriminate; [apply H|]. intros _. apply (make_GInv filled).
     + apply construct_refines in H; auto.
@@ -384,7 +485,7 @@ Proof.
     + rewrite !absP_pset. reflexivity.
   - (* OAssign *) rewrite aget_absP. destruct (pget P j) as [src|] eqn:Ej; simpl; [|inversion H; subst; auto].
     eapply on_obj_refines in H; eauto. apply copy_assign_I. eapply PAll_pget; eauto.
-  - (* OMoveAssign *) destruct (i =? j); [inversion H; subst; auto|].
+  - (* OMoveAssign *)
     rewrite !aget_absP.
     destruct (pget P i) as [dst|] eqn:Ei; simpl; [|inversion H; subst; auto].
     destruct (pget P j) as [src|] eqn:Ej; simpl; [|inversion H; subst; auto].
@@ -396,11 +497,11 @@ Proof.
   - (* OListAssign *) eapply on_obj_refines in H; eauto. apply list_assign_I.
   - (* OAt *) eapply on_obj_refines in H; eauto. apply at_I.
   - (* OGet *) eapply on_obj_refines in H; eauto. apply at_I.
-  - (* OEmplace *) eapply on_obj_refines in H; eauto. apply emplace_I.
-  - eapply on_obj_refines in H; eauto. apply append_I.
-  - eapply on_obj_refines in H; eauto. apply append_I.
-  - eapply on_obj_refines in H; eauto. apply append_I.
-  - eapply on_obj_refines in H; eauto. apply append_I.
+  - (* OEmplace *) eapply on_obj_refines in H; eauto. apply emplace_I. exact I.
+  - eapply on_obj_refines in H; eauto. apply append_I. exact I.
+  - eapply on_obj_refines in H; eauto. apply append_I. exact I.
+  - eapply on_obj_refines in H; eauto. apply append_I. exact I.
+  - eapply on_obj_refines in H; eauto. apply append_I. exact I.
   - eapply on_obj_refines in H; eauto. apply insert_range_I.
   - eapply on_obj_refines in H; eauto. apply insert_range_I.
   - eapply on_obj_refines in H; eauto. apply push_back_range_I.
@@ -409,6 +510,16 @@ Proof.
   - (* ODestroy *) rewrite absP_length. destruct (i <? length P); inversion H; subst; split; auto.
     + apply PAll_pset; simpl; auto.
     + now rewrite absP_pset.
+  - (* OEmplaceAt *) eapply on_obj_refines in H; eauto.
+    apply (alias_I (fun s => emplace None pos s) (fun s a => a_try a (bl_emplace (fst a) (snd a) pos s))). intros; now apply emplace_I.
+  - eapply on_obj_refines in H; eauto.
+    apply (alias_I (fun s => emplace_back None s) (fun s a => a_try a (bl_append (fst a) (snd a) s))). intros; now apply append_I.
+  - eapply on_obj_refines in H; eauto.
+    apply (alias_I (fun s => insert_copy None s) (fun s a => a_try a (bl_append (fst a) (snd a) s))). intros; now apply append_I.
+  - eapply on_obj_refines in H; eauto.
+    apply (alias_I (fun s => push_back None s) (fun s a => a_try a (bl_append (fst a) (snd a) s))). intros; now apply append_I.
+  - eapply on_obj_refines in H; eauto. now apply insert_self_range_I.
+  - eapply on_obj_refines in H; eauto. apply push_back_self_range_I.
 Qed.
 
 (* ---------- the strong invariant under fault plans: lost only by a throw inside positional emplace / erase ---------- *)
